@@ -64,7 +64,8 @@ def run(module, cfg_text=None, cfg=None, *, workers=1, env=None, timeout=900, du
             cmd = ["java", "-Xss" + xss, "-XX:+UseParallelGC"]
             if heap:
                 cmd.append("-Xmx" + heap)
-        cmd += ["-cp", JAR, "tlc2.TLC", "-workers", str(workers), "-metadir", meta,
+        # TLC drops a tlc-<random> directory into java.io.tmpdir on every start: keep it inside our own scratch directory
+        cmd += ["-Djava.io.tmpdir=" + wd, "-cp", JAR, "tlc2.TLC", "-workers", str(workers), "-metadir", meta,
                 "-noGenerateSpecTE", "-config", cfgp]
         if dump:
             cmd += ["-dump", dump]
@@ -122,7 +123,7 @@ def run(module, cfg_text=None, cfg=None, *, workers=1, env=None, timeout=900, du
             shutil.rmtree(wd, ignore_errors=True)
         else:
             for d in os.listdir(wd):
-                if d.startswith("meta_"):
+                if d.startswith("meta_") or d.startswith("tlc-") or d.startswith("hsperfdata"):
                     shutil.rmtree(os.path.join(wd, d), ignore_errors=True)
 
 
